@@ -13,6 +13,7 @@ CONSTANTS
   BFieldOn = {"tri", "box", "tet"}
   RefineOnB = {"tet"}
   ProdGeomIds = {12, 22}
+  ProdFieldIds = {2, 7, 13}
   GmMutant = "none"
 INVARIANT TypeOK
 INVARIANT GradIsDerivative
